@@ -2260,6 +2260,10 @@ output(std::ostream &out, int indent_level, CPPScope *scope, bool) const {
     }
     out << '(';
     _u._type_trait._type->output(out, indent_level, scope, false);
+    if (_u._type_trait._arg != nullptr) {
+      out << ", ";
+      _u._type_trait._arg->output(out, indent_level, scope, false);
+    }
     out << ')';
     break;
 
